@@ -82,6 +82,7 @@ type gen struct {
 	nlocal   int
 	depth    int
 	inIter   bool // inside an iterate body: no suspension points, no nested iterate
+	hasHio   bool // the package has the two-stream helper hio!(dst, src)
 }
 
 func (g *gen) draw(lo, hi int, what string) int {
@@ -1350,6 +1351,11 @@ func (g *gen) ioStmt() {
 		if g.o.ChunkOblivious {
 			break
 		}
+		if g.hasHio && g.hasDst && len(u32s) > 0 && g.chance(50, "usehio") {
+			v := u32s[g.draw(0, len(u32s)-1, "hiov")]
+			g.line("%s = this.hio!(dst: args.dst, src: args.src)", v.name)
+			break
+		}
 		g.ioLimitStmt(u32s)
 	case 10, 11, 12:
 		g.fastSeq()
@@ -1654,6 +1660,27 @@ func Gen(t *rapid.T, pkg string, o *Options) Prog {
 		g.stmts(g.draw(1, 4, "nh"), 1)
 		fmt.Fprintf(w, "}\n\n")
 		g.helps = append(g.helps, fmt.Sprintf("h%d", i))
+	}
+	// a private impure (not coroutine, not status-returning) helper over both streams, with explicit returns:
+	// the generated C must save the derived pointers of both arguments before each return
+	if !g.o.ChunkOblivious && g.chance(40, "hio") {
+		g.hasHio = true
+		fmt.Fprintf(w, "pri func foo.hio!(dst: base.io_writer, src: base.io_reader) base.u32 {\n")
+		fmt.Fprintf(w, "    var x : base.u32\n")
+		n := g.draw(1, 3, "hion")
+		fmt.Fprintf(w, "    if args.src.length() >= %d {\n", n)
+		fmt.Fprintf(w, "        x = args.src.peek_u8_as_u32()\n")
+		fmt.Fprintf(w, "        args.src.skip_u32_fast!(actual: %d, worst_case: %d)\n", n, n)
+		fmt.Fprintf(w, "        if args.dst.length() >= 1 {\n")
+		fmt.Fprintf(w, "            args.dst.write_u8_fast!(a: (x & 0xFF) as base.u8)\n")
+		if g.chance(50, "hioearly") {
+			fmt.Fprintf(w, "            return x ~mod+ %d\n", g.draw(1, 1000, "hiok"))
+		}
+		fmt.Fprintf(w, "        }\n")
+		fmt.Fprintf(w, "        return x\n")
+		fmt.Fprintf(w, "    }\n")
+		fmt.Fprintf(w, "    return 0x%X\n", g.draw(256, 70000, "hiod"))
+		fmt.Fprintf(w, "}\n\n")
 	}
 	// private coroutines
 	for i := 0; i < g.draw(0, 2, "ncoro"); i++ {
